@@ -27,8 +27,16 @@ func zzIdentOK(s string) bool {
 	return true
 }
 
-func zzIdentHarness(n int) {
-	name := zzverif.String("name", n)
+func zzIdentHarness(n int) { zzIdentCheck(zzverif.String("name", n)) }
+
+// identifiers spelled with letters and digits that are not ASCII (Cyrillic е,
+// é, fullwidth a, Arabic-Indic digit 3): cheap for any implementation, because
+// the bytes come from a small alphabet
+func VerifC13_IdentUnicode4() {
+	zzIdentCheck(zzverif.StringFrom("name", 4, "a_1\xd0\xb5\xc3\xa9\xef\xbd\x81\xd9\xa3"))
+}
+
+func zzIdentCheck(name string) {
 	which := zzverif.Choice("sanitizer", 4)
 	var out string
 	var err error
